@@ -60,7 +60,11 @@ def handleMp4 (kv : KV) : String :=
     let ranges := parseRanges rangesS
     let max := cfg.maxMetadataSize
     let boxes := (Mp4Walk.walkAll s 0 s.len).boxes
-    let metaBytes := (boxes.filter (fun b => isMeta b.name)).foldl (fun acc b => acc + (min b.endOff s.len - b.offset)) 0
+    -- a ftyp / moov box counts with its payload only when the payload is within its limit (1024 / max_metadata_size):
+    -- "declared sizes above the limit are rejected before anything is allocated" — or read
+    let metaBytes := (boxes.filter (fun b => isMeta b.name)).foldl (fun acc b =>
+      let lim := if b.name == Mp4Walk.cc 'f' 't' 'y' 'p' then 1024 else max
+      if b.payloadLen ≤ lim then acc + (min b.endOff s.len - b.offset) else acc + b.hdrLen) 0
     let readBound := metaBytes + 32 * (boxes.length + 1)
     -- Spec_C10 on the implementation's observations
     let spec : Option String :=
